@@ -5,6 +5,7 @@ package main
 
 import (
 	"fmt"
+	"math"
 	"sync/atomic"
 
 	"verif/mc"
@@ -309,6 +310,23 @@ func main() {
 					}
 				}
 			}
+			// arguments at the ends of the int range: the boundary arithmetic
+			// (len+n-1, i+n, len-n, i+len) must not overflow for any allowed argument
+			for l := 0; l <= 6; l++ {
+				ext := []int{math.MaxInt, math.MaxInt - 1, math.MaxInt - l, math.MaxInt - l + 1, math.MaxInt - l + 2, math.MaxInt - l - 1,
+					math.MaxInt / 2, math.MaxInt/2 + 1, 1 << 31, 1<<31 - 1, 1 << 32, 1<<32 - 1, 1 << 62}
+				for _, a := range ext {
+					if a <= 0 {
+						continue // MaxInt-l+2 wraps for l < 2
+					}
+					for _, fn := range []string{"Chunks", "Batches", "Head", "Tail", "At", "PtrAt", "Rotate"} {
+						cases = append(cases, tcase{Fn: fn, Len: l, Arg: a})
+					}
+					for _, fn := range []string{"Chunks", "Batches", "At", "PtrAt", "Rotate"} { // negative: documented panic or nil
+						cases = append(cases, tcase{Fn: fn, Len: l, Arg: -a}, tcase{Fn: fn, Len: l, Arg: -a - 1})
+					}
+				}
+			}
 			for _, shp := range mc.AllSeqs(4, 3) { // up to 3 rows of length 0..3
 				for i := 0; i <= 3; i++ {
 					cases = append(cases, tcase{Fn: "Stripe", Shape: shp, Arg: i})
@@ -329,7 +347,7 @@ func main() {
 			r.Bound("max_len", maxLen)
 			r.Bound("rotate_max_len", rotLen)
 			r.Bound("spare_capacity", "0..2, plus the nil slice")
-			r.Rule("Partition: all 2^n keep patterns; Rotate: all k in -n-2..n+2; Chunks/Batches: n in -1..len+2; Head/Tail: 0..len+2; At/PtrAt: -len-2..len+1; Stripe: all ragged shapes up to 3x3; non-trivial = cases on slices of length >= 2")
+			r.Rule("Partition: all 2^n keep patterns; Rotate: all k in -n-2..n+2; Chunks/Batches: n in -1..len+2 and 13 values at the ends of the int range (also for Head/Tail/At/PtrAt/Rotate, lengths 0..6); Head/Tail: 0..len+2; At/PtrAt: -len-2..len+1; Stripe: all ragged shapes up to 3x3; non-trivial = cases on slices of length >= 2")
 			r.Assume("capacity-clipped means cap == len for the Partition result and for every chunk/batch; checked with spare capacity 0..2 behind the input")
 			r.Sample(tcase{Fn: "Rotate", Len: 7, Arg: -1})
 			r.Sample(tcase{Fn: "Batches", Len: 0, Arg: 1})
